@@ -4,18 +4,27 @@ import (
 	"encoding/json"
 	"fmt"
 	"os"
+	"strings"
 
 	"github.com/jsightapi/jsight-schema-core/notations/jschema"
 )
 
 func main() {
-	for _, t := range os.Args[1:] {
-		s := jschema.New("root", t)
-		fmt.Printf("%q check=%v\n", t, s.Check())
-		ex, err := s.Example()
-		fmt.Printf("  example=%q %v\n", ex, err)
-		a, err := s.GetAST()
-		b, _ := json.Marshal(a)
-		fmt.Printf("  ast=%s %v\n", b, err)
+	s := jschema.New("root", os.Args[1])
+	for _, a := range os.Args[2:] {
+		i := strings.Index(a, "=")
+		if err := s.AddType(a[:i], jschema.New(a[:i], a[i+1:])); err != nil {
+			fmt.Println("addtype", a[:i], err)
+		}
 	}
+	fmt.Printf("check=%v\n", s.Check())
+	ex, err := s.Example()
+	fmt.Printf("example=%q %v\n", ex, err)
+	u, _ := s.UsedUserTypes()
+	fmt.Println("used=", u)
+	n, err := s.Len()
+	fmt.Println("len=", n, err, len(os.Args[1]))
+	a, err := s.GetAST()
+	b, _ := json.MarshalIndent(a, "", " ")
+	fmt.Printf("ast=%s %v\n", b, err)
 }
